@@ -86,3 +86,44 @@ fn h_soft_par() {
         j += 1;
     }
 }
+
+// Quick plumbing form of h_soft_par: which round key meets which block.  The S-box / MixColumns leaves are replaced by
+// the identity (their semantics: h_soft_single, fixslice.rs), bitslice / inv_bitslice by their bit-permutation specs, so
+// cipher_round_par(blocks, keys)[j] must be blocks[j] xor keys[j] for each of the eight lanes.
+fn idm(_s: &mut [u64]) {}
+fn ids(_s: &mut State) {}
+// @ob name=h_soft_par_lanes props=C17,C04,C20 cfg=hazmat fn=aes::soft::fixslice::hazmat::cipher_round_par,aes::soft::fixslice::hazmat::equiv_inv_cipher_round_par uses=c_bitslice,c_inv_bitslice,h_soft_single timeout=600
+#[kani::proof]
+#[kani::stub(bitslice, spec_bitslice_fn)]
+#[kani::stub(inv_bitslice, spec_inv_bitslice_fn)]
+#[kani::stub(sub_bytes, idm)]
+#[kani::stub(sub_bytes_nots, idm)]
+#[kani::stub(inv_sub_bytes, idm)]
+#[kani::stub(shift_rows_1, idm)]
+#[kani::stub(shift_rows_3, idm)]
+#[kani::stub(mix_columns_0, ids)]
+#[kani::stub(inv_mix_columns_0, ids)]
+#[kani::unwind(20)]
+fn h_soft_par_lanes() {
+    let b: [[u8; 16]; 8] = kani::any();
+    let k: [[u8; 16]; 8] = kani::any();
+    let mut blocks = Block8::default();
+    let mut keys = Block8::default();
+    let mut i = 0;
+    while i < 8 {
+        blocks[i] = Array(b[i]);
+        keys[i] = Array(k[i]);
+        i += 1;
+    }
+    let mut enc = blocks.clone();
+    hazmat::cipher_round_par(&mut enc, &keys);
+    let mut dec = blocks.clone();
+    hazmat::equiv_inv_cipher_round_par(&mut dec, &keys);
+    let mut j = 0;
+    while j < 8 {
+        assert!(eq(&enc[j].0, &fips::xor_block(&b[j], &k[j])));
+        assert!(eq(&dec[j].0, &fips::xor_block(&b[j], &k[j])));
+        assert!(eq(&keys[j].0, &k[j]));
+        j += 1;
+    }
+}
